@@ -61,6 +61,15 @@ def correspond(ctx):
 def search(ctx):
   K = _c01._k1()
   from harness import histrun
+  # corpus, run first: the witnesses of the defects that were repaired in /repo (kind 'fixed' in known_findings.json);
+  # if one fails again it is a plain VIOLATION (fixed entries suppress nothing)
+  for k in core.load_known():
+    if k['property'] == PROP and k.get('kind') == 'fixed' and k.get('witness'):
+      desc = K.replay_witness(k['witness'], PROP, ctx)
+      ctx.count(('corpus', k['id']), nontrivial=True, kind='corpus-witness')
+      if desc:
+        ctx.violation(k['witness'].get('kind') or 'regression', 'regression of %s (%s): %s' % (k['id'], k.get('commit'), desc),
+                      k['witness'])
   res = getattr(ctx, '_k1', None) or K.traced_run(ctx, *_c01.sizes(ctx))
   n = 0
   for issue in res['issues']:
@@ -71,6 +80,9 @@ def search(ctx):
   ctx.extra['shared_run_stats'] = shared.get('stats')
   for issue in shared['issues']:
     if issue['prop'] == PROP:
+      if 'CircularRefError' in issue['what']:
+        ctx.bump('shared-run-issue-skipped:cyclic-formula-program')   # history-dependent values (C18/C05), outside C03
+        continue
       rep = issue['replay']
       _report(ctx, {'prop': PROP, 'kind': issue['kind'], 'what': issue['what'],
                     'replay': {'history': rep.get('history', []), 'bundle': rep.get('bundle')}})
